@@ -23,6 +23,8 @@ PROPS["C09"] = dict(
          "distinct by (source kind, target kind, option set, attribute shape: AS_PATH segment mix, private-AS positions, own-AS count, 4-octet ASNs, next-hop form, "
          "MED/LOCAL_PREF/RR attributes/communities, unknown-attribute flag classes)",
     assumptions=["the AS the router presents on a session is the local-as option if set, the confederation identifier towards peers outside the confederation, else the global AS",
+                 "the peer kind of a neighbour is the type of the actual session: one neighbour in five is configured WITHOUT peer-as (not inside a confederation), its type and AS are known only "
+                 "from the peer's OPEN (State.PeerType / State.PeerAs; Config.PeerType stays EXTERNAL); units that run no session reproduce what fsm.stateChange records at ESTABLISHED",
                  "AS_PATHs are compared up to segmentation of adjacent AS_SEQUENCE / AS_CONFED_SEQUENCE segments (towards iBGP exact); no produced segment may be empty or longer than 255",
                  "remove-private-as follows the openconfig text (every private ASN, RFC 6996 ranges, all -> deleted / replace -> local AS); order relative to replace-peer-as undocumented: both orders admitted; "
                  "whether it touches confederation segments towards a member-AS peer undocumented: both admitted",
@@ -55,6 +57,8 @@ PROPS["C09"] = dict(
                   "e2e:c09:rule:ibgp-aspath-unchanged", "e2e:c09:rule:reflect-to-client", "e2e:c09:rule:reflect-client-to-nonclient", "e2e:c09:rule:rs-transparent",
                   "e2e:c09:rule:remove-private-as:all", "e2e:c09:rule:remove-private-as:replace", "e2e:c09:rule:replace-peer-as", "e2e:c09:rule:local-as",
                   "e2e:c09:rule:unknown-nontransitive-dropped", "e2e:c09:rule:unknown-transitive-passed-on"]
+               + ["%speer-as-unset:%s:%s" % (u, d, k) for u in ("", "e2e:c09:") for d in ("source", "target") for k in ("ebgp", "ibgp", "rrclient")]
+               + ["peer-as-unset:inbound:%s" % k for k in ("ebgp", "ibgp", "rrclient")]
                + ["e2e:c09:pair:%s->%s" % (a, b) for a in ("local", "ebgp", "ibgp", "rrclient") for b in ("ebgp", "ibgp", "rrclient")] + ["e2e:c09:pair:rsclient->rsclient"]
                + ["e2e:c09:reached:%s->%s" % (a, b) for a in ("local", "ebgp", "ibgp", "rrclient") for b in ("ebgp", "ibgp", "rrclient") if (a, b) != ("ibgp", "ibgp")]
                + ["e2e:c09:reached:rsclient->rsclient"],
